@@ -257,6 +257,9 @@ def translate():
     lines = ["(* textx/registration.py: key normalisation, clearing, cache key, pattern-less languages; see tools/translate/registry_tr.py *)"]
     lines += ["Definition %s : bool := %s." % (k, "true" if facts[k] else "false") for k in order]
     lines += ["(* compared as text: lazy entry-point load, THEN duplicate refusal, THEN insertion (register_language, register_generator) *)",
-              "Definition register_loads_then_refuses_then_inserts : bool := true."]
+              "Definition register_loads_then_refuses_then_inserts : bool := true.",
+              "(* compared as text: discovery sets the table to {} and registers the entry points through register_*_with_project with no",
+              "   handler, so a colliding name raises out of the first use and the partially filled table stays *)",
+              "Definition discovery_failure_keeps_partial_table : bool := true."]
     emit("SrcRegistry", "\n".join(lines) + "\n")
     return []
